@@ -47,6 +47,14 @@ add("C15", "proof",
     "plus a correspondence run inside Coq; scale sessions (2^15 constants, 2^15 / 2^16 instructions) must work or be refused.",
     COMMON_NOTE, "machine-checked proof in Coq over a hand-written model + exhaustive/differential correspondence with the Go code")
 
+add("C05", "other",
+    "Partial. Proved in Coq (PropC05.v): every operator on every pair of operand values returns a value or a documented error "
+    "(totality, zero division, index bounds, shifts). Not proved: that compiled code never drives the VM into an internal fault "
+    "(C05_no_abort_statement). Decided each run on adversarial programs run on the real code with panics recovered and a time "
+    "limit: every operator x 21 operands of every type in 23 statement shapes, the generator's adversarial profile, token-mutated "
+    "valid sessions; any recovered panic or undocumented error is a violation; the VM model (each Go panic site = Abort) must agree.",
+    COMMON_NOTE, DIFF)
+
 PENDING_REASON = "check under construction in this round (the technique applies; see DESIGN.md section 6); not yet claimed"
 
 
